@@ -30,7 +30,7 @@ ASSUMPTIONS = [
     "noise lines are inserted inside sections (after their title), not before the first section and not inside ~Other, whose lines are content",
 ]
 REQUIRED = ["pairs_compared", "t_noise_header", "t_noise_data", "t_pad_lines", "t_crlf", "t_no_final_newline", "t_rewrap", "t_redelimit",
-            "t_pad_fields", "t_noise_burst", "rewrap_width_divides", "rewrap_width_not_divides", "corpus_pairs", "generated_pairs", "engine_normal_pairs", "redelimit_tab_runs"]
+            "t_pad_fields", "t_noise_burst", "rewrap_width_divides", "rewrap_width_not_divides", "corpus_pairs", "generated_pairs", "engine_normal_pairs", "redelimit_tab_runs", "redelimit_decimal_comma_data"]
 SOFT_DEADLINE = {"quick": 100, "thorough": 1500}
 LEVEL_TEXT = "Metamorphic exploration: equality of two observed reads under composed presentation-only transformations."
 LEVEL_NOTE = "Equality of two executions; trusts the transformations to be presentation-only (they act on whitespace, line ends, comment lines, wrapping and the declared delimiter only)."
@@ -79,6 +79,10 @@ def grid(tier):
             for rep in range(4):
                 k += 1
                 yield {"base": "gen", "seed": k, "wrap": False, "ts": ["redelimit"], "dlm": dlm, "to": [dlm, pad]}
+    for seed in (9001, 9002, 9003, 9004, 9005, 9006, 9007, 9008, 9009, 9010, 9011, 9012):
+        for dlm, to in (("SPACE", "TAB"), ("TAB", "SPACE"), ("TAB", "TAB")):
+            k += 1
+            yield {"base": "gen", "seed": seed, "wrap": False, "ts": ["redelimit"], "dlm": dlm, "to": [to, seed % 2 == 0]}
     for c in range(1, 9):
         for w in list(range(1, c + 1)) + [c + 1, 2 * c, 2 * c + 1, 1000]:
             k += 1
@@ -126,6 +130,12 @@ def gen_abstract(rng, wrap, dlm, ncurves=None):
         for j in range(1, c):
             row.append(rng.choice(["%.3f" % rng.uniform(-500, 500), "%d" % rng.randint(-99, 999), "-999.25", "%.4E" % rng.uniform(1, 1e6)]))
         rows.append(row)
+    if dlm != "COMMA" and rng.random() < 0.15:
+        # decimal commas (repaired by the default read policy) in a SPACE- or TAB-delimited file
+        for row in rows:
+            for j in range(len(row)):
+                if "." in row[j] and "E" not in row[j]:
+                    row[j] = row[j].replace(".", ",")
     if c >= 2 and rng.random() < 0.25:
         # a column of text (lithology codes, flags): presentation must not change it either
         tj = rng.randint(1, c - 1)
@@ -248,6 +258,11 @@ def run_case(case, ctx):
                     ctx.count("rewrap_lines_span_depth_steps")
         if "redelimit" in ts and not wrap:
             to, pad = case.get("to") or [rng.choice(["SPACE", "TAB", "COMMA"]), rng.choice([False, True, "runs"])]
+            if to == "COMMA" and any("," in t for row in a["rows"] for t in row):
+                to = "TAB"            # a decimal comma cannot live in a comma-delimited rendering
+                ctx.count("redelimit_decimal_comma_data")
+            elif any("," in t for row in a["rows"] for t in row):
+                ctx.count("redelimit_decimal_comma_data")
             sep = {"SPACE": rng.choice(["  ", "     "]) if pad else " ", "TAB": " \t " if pad else "\t", "COMMA": rng.choice([", ", " , ", " ,"]) if pad else ","}[to]
             if pad == "runs" and to == "TAB":
                 sep = rng.choice(["\t\t", "\t\t\t"])          # "the amount of ... tabs between fields": a run of tabs is one separator
